@@ -7,6 +7,7 @@ package sched
 
 import (
 	"fmt"
+	"sort"
 	"strings"
 	"time"
 )
@@ -61,7 +62,7 @@ func (r *run) enabledList() (list []int, running bool) {
 }
 
 // schedule picks the next thread to run at a scheduling point reached by r.cur.
-func (r *run) schedule(site int) {
+func (r *run) schedule(site int) (chosen *thread) {
 	enabled, running := r.enabledList()
 	if len(enabled) == 0 {
 		// nothing can run: finished, or deadlock
@@ -72,7 +73,7 @@ func (r *run) schedule(site int) {
 			}
 		}
 		close(r.doneCh)
-		return
+		return nil
 	}
 	choice := 0
 	if len(enabled) > 1 {
@@ -90,14 +91,24 @@ func (r *run) schedule(site int) {
 	prev := r.cur
 	r.cur = next
 	if next != prev {
+		// from here on the chosen thread may run: the caller must decide whether to wait from the
+		// returned value, never by re-reading r.cur (the other thread may already have handed the
+		// baton back, leaving a stale token behind)
 		next.wake <- struct{}{}
 	}
+	return next
 }
 
 // Point is a scheduling point. With fewer than two live threads it only counts.
+// FinePoints enables the statement-level points (site FineSite) that instrumenters put into
+// code whose coarse structure already has points of its own.
+var FinePoints bool
+
+const FineSite = -30
+
 func Point(site int) {
 	r := active
-	if r == nil {
+	if r == nil || (site == FineSite && !FinePoints) {
 		return
 	}
 	r.points++
@@ -114,8 +125,7 @@ func Point(site int) {
 	if r.traceOn {
 		r.trace = append(r.trace, int32(me.id), int32(site))
 	}
-	r.schedule(site)
-	if r.cur != me {
+	if r.schedule(site) != me {
 		<-me.wake
 	}
 }
@@ -183,9 +193,11 @@ func (w *WaitGroup) Wait() {
 	for w.n > 0 {
 		me := r.cur
 		me.blocked = w
-		r.schedule(-3)
-		if r.cur != me {
+		if next := r.schedule(-3); next != nil && next != me {
 			<-me.wake
+		} else if next == nil {
+			// deadlock: nobody can ever release this group; the run has been ended
+			select {}
 		}
 	}
 }
@@ -362,6 +374,30 @@ func (e *Explorer) account(x *Execution) {
 		}
 	}
 	e.Stats.Outcomes[outcome]++
+}
+
+// MapOrder selects the order in which Keys presents the keys of a map (a seam for the one source
+// of nondeterminism the scheduler does not own): 0 ascending, 1 descending, 2 ascending rotated by
+// one, 3 descending rotated by one.
+var MapOrder int
+
+// Keys returns the keys of m in the order selected by MapOrder. The instrumenter rewrites every
+// `range` over a map into a range over Keys(m).
+func Keys[K comparable, V any](m map[K]V) []K {
+	keys := make([]K, 0, len(m))
+	for k := range m {
+		keys = append(keys, k)
+	}
+	sort.Slice(keys, func(i, j int) bool { return fmt.Sprint(keys[i]) < fmt.Sprint(keys[j]) })
+	if MapOrder&1 == 1 {
+		for i, j := 0, len(keys)-1; i < j; i, j = i+1, j-1 {
+			keys[i], keys[j] = keys[j], keys[i]
+		}
+	}
+	if MapOrder&2 == 2 && len(keys) > 1 {
+		keys = append(keys[1:], keys[0])
+	}
+	return keys
 }
 
 // FormatChoices renders a schedule for replay files.
